@@ -37,7 +37,7 @@ def run(res, args):
     for ci in range(nclusters):
         base = specs[ci % len(specs)]
         ty = int(re.search(r"type=(\d+)", base).group(1))
-        ts0 = int(re.search(r"ts=(\d+)", base).group(1))
+        ts0 = int(re.search(r"(?<![a-z])ts=(\d+)", base).group(1))
         for _ in range(rng.randint(2, 5)):
             d = rng.choice([0, 1, -1, 1000, -1000, 3000, -3000, 9999, -9999, 10000, -10001, 30000, -60000, rng.randint(-20000, 20000)])
             if ty in (1084, 1087):
@@ -46,7 +46,7 @@ def run(res, args):
             else:
                 ts = (ts0 + d) % 604800000
             cluster_of[len(specs)] = ci
-            specs.append(re.sub(r"ts=\d+", "ts=%d" % ts, base))
+            specs.append(re.sub(r"(?<![a-z])ts=\d+", "ts=%d" % ts, base))
     lines, e = common.run_lines(common.MODEL_BIN, "msmspec", ["msmspec " + t for t in specs])
     pool, clusters = [], {}
     for i, line in enumerate(lines or []):
